@@ -1520,6 +1520,17 @@ impl Check for C08 {
                     } else {
                         "well_formed_input"
                     };
+                    // a listed finding is this panic only if the message is the one that cause
+                    // produces; any other panic in the same circumstances is a different failure
+                    let expected_text = match cause {
+                        "goal_sampler_err" => "GoalSamplingTimeout { attempts: 0 }",
+                        "uniform_sampler_err" => "ZeroVolume",
+                        "unbounded_space" => "UnboundedDimension",
+                        "goal_bias_out_of_range" => "is outside range [0.0, 1.0]",
+                        "empty_start_list" => "index out of bounds: the len is 0",
+                        _ => "",
+                    };
+                    let cause = if m.contains(expected_text) { cause } else { "another_panic_under_a_fault" };
                     if cause != "well_formed_input" {
                         rep.probe("fault_fired");
                         rep.fault(cause);
